@@ -61,7 +61,9 @@ def plan(tier, seed):
     cold = COLD_PAIRS[:2] if tier == "quick" else COLD_PAIRS
     for pair in cold:
         for i in range(5):
-            descs.append({"kind": "cold", "docs": list(pair), "lo": i, "step": 5, "timeout": 1800})
+            # (fresh interpreters are slow to start on a saturated machine: generous watchdog, inconclusive if hit)
+            descs.append({"kind": "cold", "docs": list(pair), "lo": i, "step": 5,
+                          "timeout": 1800 if tier == "quick" else 7200})
     g = 12 if tier == "quick" else 40
     for pair in (GRID_PAIRS[:4] if tier == "quick" else GRID_PAIRS):
         for i in range(4):
@@ -233,7 +235,7 @@ def _cold_child(argv):
     os._exit(0)
 
 
-def _fresh(args, timeout=150):
+def _fresh(args, timeout=400):
     import json
     import subprocess
     from ..run import HERE, PY
